@@ -3,12 +3,14 @@ package main
 import (
 	"context"
 	"fmt"
+	"reflect"
 	"strings"
 	"time"
 
 	admissionv1 "k8s.io/api/admission/v1"
 	corev1 "k8s.io/api/core/v1"
 	metav1 "k8s.io/apimachinery/pkg/apis/meta/v1"
+	"k8s.io/apimachinery/pkg/runtime/schema"
 	"k8s.io/apimachinery/pkg/types"
 	"k8s.io/pod-security-admission/admission"
 	admissionapi "k8s.io/pod-security-admission/admission/api"
@@ -656,7 +658,51 @@ func runC08(c *Ctx) {
 
 // ---------------------------------------------------------------- C09
 
+// c09Resources: the extractor's own account of which resources carry a pod template (what a host admission plugin registers
+// for) must be the eight workload kinds and pods, must agree between HasPodSpec and PodSpecResources, and every resource it
+// names must be one whose objects ExtractPodSpec finds the template in — otherwise such a controller is "looked at" without
+// its template ever being judged.
+func c09Resources(c *Ctx) {
+	ex := admission.DefaultPodSpecExtractor{}
+	want := map[schema.GroupResource]bool{{Resource: "pods"}: true}
+	for _, k := range controllerKinds {
+		want[schema.GroupResource{Group: groupOf(k), Resource: k}] = true
+	}
+	listed := map[schema.GroupResource]bool{}
+	for _, gr := range ex.PodSpecResources() {
+		if listed[gr] {
+			c.Violate(Finding{Desc: "PodSpecResources lists a resource twice: " + gr.String(), Key: "resources-duplicate", Input: J{"resource": gr.String()}})
+		}
+		listed[gr] = true
+	}
+	probe := []schema.GroupResource{{Resource: "namespaces"}, {Resource: "configmaps"}, {Group: "extensions", Resource: "deployments"}, {Group: "", Resource: "deployments"},
+		{Group: "apps", Resource: "pods"}, {Group: "batch", Resource: "deployments"}, {Group: "apps", Resource: "jobs"}, {Group: "apps", Resource: "Deployments"}, {Resource: "pods/status"}, {}}
+	for gr := range want {
+		probe = append(probe, gr)
+	}
+	for gr := range listed {
+		probe = append(probe, gr)
+	}
+	for _, gr := range probe {
+		c.Eval(1)
+		if has := ex.HasPodSpec(gr); has != want[gr] || listed[gr] != want[gr] {
+			c.Violate(Finding{Desc: fmt.Sprintf("resource %q: HasPodSpec=%v, listed by PodSpecResources=%v, but it %s one of pods and the eight workload kinds", gr.String(), has, listed[gr], map[bool]string{true: "is", false: "is not"}[want[gr]]),
+				Key: "resources-table", Input: J{"group": gr.Group, "resource": gr.Resource}})
+		}
+	}
+	p := &corev1.Pod{ObjectMeta: metav1.ObjectMeta{Name: "t", Labels: map[string]string{"a": "b"}}, Spec: corev1.PodSpec{HostNetwork: true, Containers: []corev1.Container{{Name: "c", Image: "i"}}}}
+	for _, k := range controllerKinds {
+		c.Eval(1)
+		m, s, err := ex.ExtractPodSpec(wrapController(k, p, false))
+		if err != nil || m == nil || s == nil || !reflect.DeepEqual(*m, p.ObjectMeta) || !reflect.DeepEqual(*s, p.Spec) {
+			c.Violate(Finding{Desc: fmt.Sprintf("ExtractPodSpec does not return the template of a %s object (err=%v)", k, err), Key: "extract-template", Input: J{"resource": k}})
+		}
+	}
+	c.Tag("c09.resourcesTable")
+}
+
 func runC09(c *Ctx) {
+	c09Resources(c)
 	// the same, end to end: controller reviews as an API server sends them (also one newer than this build: fields it does
 	// not know) through the webhook handler; the answer must carry what the library reports for the typed object
 	ns, newAdm := webhookFixture()
@@ -986,6 +1032,7 @@ func sortStrings(s []string) {
 }
 
 func runC12(c *Ctx) {
+	runC12Webhook(c)
 	runRealListerHistory(c)
 	n := sizes(c, 1500, 20000)
 	k := AdmitKnobs{Kind: "ns", FaultPct: 0, SynPct: 85, SubPct: 0, Pods: popGen(12, true)}
